@@ -1,1 +1,15 @@
-"""Declared shapes of external objects (mypy, griffe, pathlib) used by contracts."""
+"""Declared shapes of external objects (mypy, griffe, pathlib) used by contracts.
+
+SCHEMA: external class qualified name -> {attribute: shape}. These are assumptions about the installed
+libraries' data model (listed in the evidence); class hierarchies themselves are read from the libraries.
+"""
+import mypy.nodes as mp_nodes  # noqa: F401
+import mypy.types as mp_types  # noqa: F401
+from mypy.nodes import ArgKind  # noqa: F401
+
+SCHEMA = {
+    "mypy.nodes.Argument": {"variable": "mp_nodes.Var", "kind": "ArgKind", "pos_only": "bool",
+                            "initializer": "mp_nodes.Expression | None", "type_annotation": "mp_types.Type | None"},
+    "mypy.nodes.Var": {"is_self": "bool", "is_cls": "bool", "name": "str", "fullname": "str",
+                       "type": "mp_types.Type | None", "explicit_self_type": "bool", "is_inferred": "bool"},
+}
